@@ -20,6 +20,7 @@ SHADOWS = {'nested-shadow-kw': ('vk', 'def _inner(kwargs):', 'return _inner({})'
            'nested-shadow-va-posonly': ('va', 'def _inner(args, /):', 'return _inner(())')}
 ROUTES = ('global', 'closure', 'attribute', 'self', 'param-partial', 'wraps')
 UNRESOLVABLE = ('missing-global', 'non-callable', 'unset-attribute')
+DECLARED = ('declared-function', 'declared-method', 'declared-super', 'declared-apply-super')
 STAR_FORMS = ('pristine', 'absent', 'foreign', 'doubled')
 
 # taint statements: (production name, star, statement text, taints?)  — "taints" is the ground truth
@@ -69,6 +70,14 @@ class CM(object):
 def observe(*a, **k):
     return None
 
+def checked_partial(p):
+    import inspect
+    try:
+        inspect.signature(p)
+    except ValueError as e:
+        raise TypeError(str(e))
+    return p
+
 def ident(x=None, *rest, **more):
     return x
 
@@ -95,6 +104,8 @@ class Prog(object):
         self.features = []         # production names reached
         self.objs = {}             # after build(): f (callable under test), wrapper (function), callee (callable)
         self.n_sites = 1
+        self.emulate = False
+        self.partial = False
 
     def label(self):
         return ' '.join(self.features)
@@ -105,7 +116,7 @@ def _indent(text, n=1):
     return '\n'.join(pad + line if line else line for line in text.split('\n'))
 
 
-def _call_text(callee_expr, k, names, va_form, vk_form):
+def _call_args(k, names, va_form, vk_form):
     parts = [str(10 + i) for i in range(k)]
     if va_form == 'pristine':
         parts.append('*args')
@@ -120,10 +131,14 @@ def _call_text(callee_expr, k, names, va_form, vk_form):
         parts.append('**other_kwargs')
     elif vk_form == 'doubled':
         parts += ['**kwargs', '**other_kwargs']
-    return '%s(%s)' % (callee_expr, ', '.join(parts))
+    return parts
 
 
-GROUPS = ('shapes', 'contexts', 'taints', 'unresolvable')
+def _call_text(callee_expr, k, names, va_form, vk_form):
+    return '%s(%s)' % (callee_expr, ', '.join(_call_args(k, names, va_form, vk_form)))
+
+
+GROUPS = ('shapes', 'contexts', 'taints', 'unresolvable')      # + 'declared' (C04), 'full'
 
 
 def draw(cfg):
@@ -155,6 +170,8 @@ def draw(cfg):
         routes = ('global',); forms = ('pristine', 'absent'); unres_on = True
     elif group == 'full':
         taints = True
+    elif group == 'declared':
+        contexts = ('return',); routes = DECLARED; forms = ('pristine', 'absent', 'foreign')
     if 'form_list' in g:
         forms = tuple(g['form_list'])
     if 'ctx_list' in g:
@@ -198,6 +215,9 @@ def draw(cfg):
         taint = table[sym.pick(len(table), 'taintkind')]
         if taint is not None:
             taint_after = sym.flip('after')
+    if group == 'declared':
+        p.emulate = sym.flip('emulate')
+        p.partial = sym.flip('partial') if (route == 'declared-function' and g.get('partial', True)) else False
     return assemble(p, ospec, cspec, k, names, va_form, vk_form, route, context, taint, taint_after, unres)
 
 
@@ -245,7 +265,20 @@ def assemble(p, ospec, cspec, k, names, va_form, vk_form, route, context, taint,
         callee_expr = 'self.callee'
     elif route == 'param-partial':
         callee_expr = 'fn'
+    elif route == 'declared-method':
+        callee_expr = 'self.callee'
+    elif route == 'declared-super':
+        callee_expr = 'super().wrapper'
+    elif route == 'declared-apply-super':
+        callee_expr = 'super(K, self).wrapper'
     call = _call_text(callee_expr, k, names, va_form, vk_form)
+    if p.partial:
+        # the wrapper hands its arguments to functools.partial(callee, ...): nothing is bound yet, CPython only
+        # rejects surplus arguments (observed through inspect.signature of the partial object)
+        call = 'checked_partial(functools.partial(%s))' % ', '.join(['callee'] + _call_args(k, names, va_form, vk_form))
+        p.features.append('partial')
+    if p.emulate:
+        p.features.append('emulate')
     p.n_sites = 1
     if context == 'return':
         body = 'return ' + call
@@ -290,8 +323,44 @@ def assemble(p, ospec, cspec, k, names, va_form, vk_form, route, context, taint,
     lines = [PRELUDE]
     if unres == 'non-callable':
         lines.append('not_callable = 5\n')
-    if route in ('global', 'attribute', 'param-partial', 'wraps') or unres:
+    if route in ('global', 'attribute', 'param-partial', 'wraps', 'declared-function') or unres:
         lines.append(callee_def)
+    if route in DECLARED:
+        d = p.decl
+        dargs = [str(d['k'])] + [repr(nm) for nm in d['names']]
+        dargs += ['%s=%r' % (fl, d[fl]) for fl in ('use_varargs', 'use_varkwargs') if not d[fl]]
+        dargs += ['%s=%r' % (fl, d[fl]) for fl in ('hide_args', 'hide_kwargs') if d[fl]]
+        if p.partial:
+            dargs.append('partial=True')
+        if p.emulate:
+            dargs.append('emulate=True')
+        sdef = 'self' + (', ' + odef if odef else '')
+        cdef = 'self' + (', ' + cspec.deflist() if cspec.deflist() else '')
+        lines.append('from sigtools import specifiers\n')
+        if route == 'declared-function':
+            lines.append('@specifiers.forwards_to_function(callee, %s)\ndef wrapper(%s):\n' % (', '.join(dargs), odef) +
+                         _indent(body) + '\nf = wrapper\n')
+        elif route == 'declared-method':
+            lines.append('class K(object):\n' + _indent('def callee(%s):\n    return None\n' % cdef) + '\n' +
+                         _indent("@specifiers.forwards_to_method('callee', %s)\ndef wrapper(%s):\n" % (', '.join(dargs), sdef) +
+                                 _indent(body)) + '\ninst = K()\nwrapper = K.__dict__["wrapper"]\ncallee = inst.callee\nf = inst.wrapper\n')
+        elif route == 'declared-super':
+            lines.append('class Base(object):\n' + _indent('def wrapper(%s):\n    return None\n' % cdef) + '\n' +
+                         'class K(Base):\n' +
+                         _indent('@specifiers.forwards_to_super(%s)\ndef wrapper(%s):\n' % (', '.join(dargs), sdef) + _indent(body)) +
+                         '\ninst = K()\nwrapper = K.__dict__["wrapper"]\ncallee = super(K, inst).wrapper\nf = inst.wrapper\n')
+        else:
+            aargs = ["'wrapper'", 'num_args=%d' % d['k'], 'named_args=%r' % (tuple(d['names']),)] + dargs[1 + len(d['names']):]
+            lines.append('class Base(object):\n' + _indent('def wrapper(%s):\n    return None\n' % cdef) + '\n' +
+                         '@specifiers.apply_forwards_to_super(%s)\nclass K(Base):\n' % ', '.join(aargs) +
+                         _indent('def wrapper(%s):\n' % sdef + _indent(body)) +
+                         '\ninst = K()\nwrapper = K.__dict__["wrapper"]\ncallee = super(K, inst).wrapper\nf = inst.wrapper\n')
+        p.text = '\n'.join(lines)
+        p.outer = ospec.shape()
+        p.callee = cspec.shape()
+        site = Site(k, names, use_va=(va_form in ('pristine', 'doubled')), use_vk=(vk_form in ('pristine', 'doubled')))
+        p.sites = [(site, p.callee)] * p.n_sites
+        return p
     if route == 'attribute' or unres == 'unset-attribute':
         lines.append('class NS(object):\n    pass\nns = NS()\nns.sub = NS()\n')
         if route == 'attribute':
